@@ -146,7 +146,7 @@ def specNameOf : NameOf := fun rd =>
   | some (w, _) => ofWire w
   | none => none
 
-def nameArg (s : String) : Option Name := (unhex s).bind (fun b => parseAll b.toList)
+private def nameArg (s : String) : Option Name := (unhex s).bind (fun b => parseAll b.toList)
 def optsArg (s : String) : Option Opts :=
   match s.toList with
   | [u, c] => match boolArg u.toString, boolArg c.toString with
